@@ -212,6 +212,16 @@ def run(run, rng):
             spec = rulesets.gen_spec(r2, pool=r2.choice(['nearties', 'dyadic', 'dyadic3', 'equal', 'tiny', 'decimal', 'thirds']), min_groups=3, max_groups=7, max_len=4, n_base=r2.randint(2, 4))
             run.ev('fixed_tie_rulesets')
             run.guard({'spec': spec, 'flags': {'skip_brute': False, 'all_lower': False, 'folder': 'Grammar'}}, check_case, determinism=False, seconds=120)
+        # probability fields of the longest spelling repr() produces (17 significant digits and a three-digit exponent: 23 characters), in base structures and terminals
+        # (seeded C01s: a loader that reads only the first 22 characters of the field)
+        w = [0.5, 0.3, 0.2]
+        long_spec = {'encoding': 'utf-8', 'uuid': 'longfield-0001', 'prince': [], 'omen': None,
+                     'base': [['D2', 0.6], ['D1', 0.39999999999999997], ['D1D2', 1e-30], ['D2D1', 1.2345678901234567e-105], ['D1D1', 9.8765432109876543e-250]],
+                     'terms': {'D1': [['7', 0.7000000000000001], ['3', 0.29999999999999993], ['5', 1.2345678901234567e-101]],
+                               'D2': [['12', 0.5], ['34', 0.49999999999999994], ['56', 2.3456789012345678e-120]]}}
+        assert len(repr(long_spec['base'][3][1])) == 23
+        run.ev('fixed_long_field_rulesets')
+        run.guard({'spec': long_spec, 'flags': {'skip_brute': False, 'all_lower': False, 'folder': 'Grammar'}}, check_case, determinism=False, seconds=120)
     n = N[run.tier]
     for i in range(n):
         case = gen_case(rng)
